@@ -1,4 +1,5 @@
 import ButlerModel.Model.Calib
+import ButlerModel.Gen.DecertifyPy
 import ButlerModel.Props.C11
 /-! # C04 — validity ranges never overlap; decertify removes exactly the requested range -/
 namespace C04
@@ -344,3 +345,105 @@ example : decertify [⟨0, 1, ⟨0, 100⟩⟩] ⟨40, 60⟩ none = [⟨0, 1, ⟨
 example : certify [⟨0, 1, ⟨0, 100⟩⟩] [(0, 2)] ⟨99, 200⟩ = .error "ConflictingDefinitionError" := by rfl
 
 end C04
+
+/-! ## T-tie: the Python half of `decertify` **as translated from `byDimensions/_manager.py` on every run**
+(`translate/gen_decertify.py`: from `rows_to_delete = []` on — the loop over the rows of the overlap query, the pieces
+`Timespan.difference` leaves, the DELETE and the INSERT).  The overlap query itself stays tied by the correspondence. -/
+namespace C04.Translated
+open Calib Gen
+
+abbrev IdRow := Nat × Row
+
+def pieces (ts : TS) (r : IdRow) : List IdRow :=
+  (TsPy.difference r.2.ts ts).map fun d => ((0 : Nat), (⟨r.2.key, r.2.ds, d⟩ : Row))
+
+theorem inner_fold (k ds : Nat) : ∀ (l : List TS) (acc : List IdRow),
+    l.foldl (fun acc d => acc ++ [((0 : Nat), (⟨k, ds, d⟩ : Row))]) acc = acc ++ l.map fun d => ((0 : Nat), (⟨k, ds, d⟩ : Row)) := by
+  intro l
+  induction l with
+  | nil => intro acc; simp
+  | cons d ds' ih => intro acc; simp only [List.foldl_cons, ih, List.map_cons, List.append_assoc, List.singleton_append]
+
+theorem outer_fold (ts : TS) : ∀ (rows : List IdRow) (del : List Nat) (ins : List IdRow),
+    rows.foldl (fun (acc : List Nat × List IdRow) row =>
+        (acc.1 ++ [row.1], (TsPy.difference row.2.ts ts).foldl (fun a d => a ++ [((0 : Nat), (⟨row.2.key, row.2.ds, d⟩ : Row))]) acc.2)) (del, ins) =
+      (del ++ rows.map (·.1), ins ++ rows.flatMap (pieces ts)) := by
+  intro rows
+  induction rows with
+  | nil => intro del ins; simp
+  | cons r rs ih =>
+    intro del ins
+    rw [List.foldl_cons, ih]
+    simp only [inner_fold, List.map_cons, List.flatMap_cons, pieces, List.append_assoc, List.singleton_append]
+
+theorem gen_shape (ts : TS) (rows s : List IdRow) :
+    Gen.DecertifyPy.decertifyPy ts rows s =
+      s.filter (fun r => !(rows.map (·.1)).contains r.1) ++ rows.flatMap (pieces ts) := by
+  have h := outer_fold ts rows [] []
+  simp only [List.nil_append] at h
+  unfold Gen.DecertifyPy.decertifyPy
+  simp only []
+  have h2 : (rows.foldl (fun (x : List Nat × List IdRow) row =>
+        match x with
+        | (rows_to_delete, rows_to_insert) =>
+          (rows_to_delete ++ [row.1],
+            (TsPy.difference row.2.ts ts).foldl (fun rows_to_insert diff_timespan => rows_to_insert ++ [((0 : Nat), (⟨row.2.key, row.2.ds, diff_timespan⟩ : Row))]) rows_to_insert))
+        ([], [])) = (rows.map (·.1), rows.flatMap (pieces ts)) := h
+  rw [h2]
+
+theorem mem_ids_iff (s : List IdRow) (hn : (s.map (·.1)).Nodup) (P : IdRow → Bool) (r : IdRow) (hr : r ∈ s) :
+    r.1 ∈ (s.filter P).map (·.1) ↔ P r = true := by
+  constructor
+  · intro h
+    obtain ⟨r', hr', heq⟩ := List.mem_map.mp h
+    have hr's : r' ∈ s := (List.mem_filter.mp hr').1
+    -- two rows of `s` with the same id are the same row
+    have : r' = r := by
+      clear h
+      induction s with
+      | nil => cases hr
+      | cons x xs ih =>
+        simp only [List.map_cons, List.nodup_cons, List.mem_map, not_exists, not_and] at hn
+        rcases List.mem_cons.mp hr with h1 | h1 <;> rcases List.mem_cons.mp hr's with h2 | h2
+        · rw [h1, h2]
+        · exact absurd (by rw [h1] at heq; exact heq) (hn.1 r' h2)
+        · exact absurd (by rw [h2] at heq; exact heq.symm) (hn.1 r h1)
+        · exact ih hn.2 h1 (List.mem_filter.mpr ⟨h2, (List.mem_filter.mp hr').2⟩) h2
+    rw [← this]; exact (List.mem_filter.mp hr').2
+  · intro h
+    exact List.mem_map.mpr ⟨r, List.mem_filter.mpr ⟨hr, h⟩, rfl⟩
+
+/-- **The Python half of `decertify` as translated from the source on every run** — collect the primary keys of the rows the
+overlap query returned, per row what `Timespan.difference` leaves of its validity range, DELETE, INSERT — does to the calibs
+table what `Calib.decertify` (the model the interval-map theorems are about) does: for every table with distinct primary keys,
+every timespan and every data-ID selection. -/
+theorem translated_decertify (s : List IdRow) (hn : (s.map (·.1)).Nodup) (ts : TS) (sel : Option (List Nat)) :
+    (Gen.DecertifyPy.decertifyPy ts (s.filter fun r => hit ts sel r.2) s).map (·.2) = decertify (s.map (·.2)) ts sel := by
+  rw [gen_shape]
+  unfold decertify
+  simp only [List.map_append, List.map_flatMap]
+  congr 1
+  · -- the rows that stay
+    rw [List.filter_map]
+    congr 1
+    apply List.filter_congr
+    intro r hr
+    have := mem_ids_iff s hn (fun r => hit ts sel r.2) r hr
+    simp only [Function.comp]
+    by_cases hh : hit ts sel r.2 = true
+    · have hm : r.1 ∈ (s.filter fun r => hit ts sel r.2).map (·.1) := this.mpr hh
+      simp [hm, hh]
+    · have hm : ¬ r.1 ∈ (s.filter fun r => hit ts sel r.2).map (·.1) := fun h => hh (this.mp h)
+      simp [hm, hh]
+  · -- the pieces that are inserted
+    rw [List.filter_map, List.flatMap_map]
+    congr 1
+    · funext r
+      simp [pieces, Function.comp]
+
+/-- non-vacuity: [0,10) of dataset 7 with [3,5) decertified -/
+example : (Gen.DecertifyPy.decertifyPy ⟨3, 5⟩ [(1, ⟨1, 7, ⟨0, 10⟩⟩)] [(1, ⟨1, 7, ⟨0, 10⟩⟩), (2, ⟨2, 8, ⟨0, 10⟩⟩)]).map (·.2) =
+    [⟨2, 8, ⟨0, 10⟩⟩, ⟨1, 7, ⟨0, 3⟩⟩, ⟨1, 7, ⟨5, 10⟩⟩] := by decide
+
+end C04.Translated
+
